@@ -5,6 +5,7 @@ CONSTANTS
   Preface = 0
   Peek = 1
   MaxTimeouts = 2
+  Priors = {0, 1, 2}
   Defects = {}
 SPECIFICATION Spec
 INVARIANTS InOrderOnce NoEarly Prompt Consumed PrefaceOnce NoError NoByteLost SameForEveryCut
